@@ -64,7 +64,15 @@ PatNest(n) == PatPrefix \o Rep(<<40>>, n) \o <<97>> \o Rep(<<41>>, n) \o PatSuff
 PatClass(n) == PatPrefix \o Rep(<<91, 97, 38, 38>>, n) \o <<91, 97, 93>> \o Rep(<<93>>, n) \o PatSuffix          \* [a&&[a&&[a]]]
 PatRepeat(n) == PatPrefix \o <<97>> \o Rep(<<123, 49, 48, 48, 48, 125>>, n) \o PatSuffix
 PatAlt(n) == PatPrefix \o <<40>> \o Rep(<<97, 124>>, n) \o <<97, 41>> \o PatSuffix
-ExtraCases == {[kind |-> "patnest", text |-> f, allowed |-> {"ok", "err"}] :
+\* tuples nested in the FIRST position of a tuple: a parser that re-reads the first element costs 2^depth (a hang is a violation of termination)
+NestTuple(n) == SelectPrefix \o <<120, 32, 73, 78, 32>> \o Rep(<<40>>, n) \o <<49>> \o Rep(<<44, 32, 49, 41>>, n) \o FromSuffix
+\* erroneous statements whose words are separated by wide / rare whitespace (NO-BREAK SPACE, EM SPACE, IDEOGRAPHIC SPACE, NEL, LINE SEPARATOR): the excerpt must still be produced
+WideSpaces == {160, 8195, 12288, 133, 8232}
+WideBad(w) == <<83, 69, 76, 69, 67, 84, w, 107, w, 70, 82, 79, 77, w, 116, w, 87, 72, 69, 82, 69, w, 118, w, 62, w, 70, 82, 79, 77, w, 50>>      \* SELECT k FROM t WHERE v > FROM 2
+WideBad2(w) == <<83, 69, 76, 69, 67, 84, 32, 107, 44, w, 70, 82, 79, 77, 32, 116>>                                                       \* SELECT k,<w>FROM t
+ExtraCases == {[kind |-> "nest", text |-> NestTuple(n), allowed |-> {"ok", "err"}] : n \in {2, 8, 24, 48}}
+              \cup {[kind |-> "bad", text |-> f, allowed |-> {"err"}] : f \in {WideBad(w) : w \in WideSpaces} \cup {WideBad2(w) : w \in WideSpaces}}
+              \cup {[kind |-> "patnest", text |-> f, allowed |-> {"ok", "err"}] :
                   f \in {PatNest(n) : n \in {1, 64, 250, 251, 1000, 5000, 20000}} \cup {PatClass(n) : n \in {1, 64, 1000, 5000}} \cup {PatRepeat(n) : n \in {1, 2, 3, 8}}
                         \cup {PatAlt(n) : n \in {1, 1000, 20000}}} \cup {[kind |-> "bad", text |-> BadStatements[i], allowed |-> {"err"}] : i \in 1..Len(BadStatements)}
               \cup {[kind |-> "nest", text |-> f, allowed |-> {"ok"}] : f \in {NestParen(n) : n \in {1, 2, 8, 32, 64}} \cup {NestIndex(n) : n \in {1, 8, 64}} \cup {NestCase(n) : n \in {1, 8, 64}}}
